@@ -15,3 +15,8 @@ claimed["C03"] = dict(engine="engine-I", category="model_checking",
   text="every (reference symbol pair, query symbol pair) of the 17-symbol alphabet in a width-2 alignment, both gap modes, four letter-case layouts; single differences at every position of widths 1..12 and 99..101; every sequence of 1..4 records from a menu; (thorough) all width-3 pairs over ACRN-?; a 1-in-7 slice of the table replayed through the real binary",
   note="trusted: IUPAC set model; small-scope argument: getSNPs has no width- or position-dependent branch other than the loop itself; schedule independence delegated to C12",
   design_ref="DESIGN.md 3 (C03)")
+claimed["C01"] = dict(engine="engine-I", category="model_checking",
+  technique="bounded-exhaustive input enumeration on the real entry point vs. reference CIGAR-projection model",
+  text="every valid CIGAR over MIDNSHP=X with <=3 (thorough 4) operators of length 1-2 at every POS on a 6-base reference, pad on/off; every ordered pair (thorough: triple) of short records of one query with agreeing and conflicting bases; every stream of 2-4 (5) records over two names and six flag classes; every window/pad/wrap/thread combination on representative files; a slice replayed through the real binary. Each result row is compared with an independent projection/merge/flank model",
+  note="trusted: the projection model in harness/ref_sam.go (N = no coverage); domain restrictions listed in the evidence assumptions; biogo/hts SAM parser; small-scope argument for lengths beyond the bound",
+  design_ref="DESIGN.md 3 (C01)")
